@@ -120,9 +120,11 @@ def build_model(rng):
     from PEPit.block_partition import BlockPartition as BP
     via_ctor = [rng.random() < 0.2 for _ in ds]
     parts = [BP(d_) if c_ else pep.declare_block_partition(d=d_) for d_, c_ in zip(ds, via_ctor)]   # both documented ways
-    f = pep.declare_function(SmoothConvexFunction, L=1.0)
+    # a problem may be about points and partitions only (no function declared at all)
+    no_function = rng.random() < 0.12
+    f = None if no_function else pep.declare_function(SmoothConvexFunction, L=1.0)
     pts = [pep.set_initial_point() for _ in range(rng.randint(1, 3))]
-    if rng.random() < 0.5:
+    if f is not None and rng.random() < 0.5:
         pts.append(f.gradient(pts[0]))
     desc = {"d": ds, "requests": [], "n_comb": 0, "via_constructor": via_ctor, "temporaries": 0}
     decomposed = []
@@ -155,14 +157,18 @@ def build_model(rng):
             if rng.random() < 0.4:
                 pts.append(b)       # points that depend on blocks of other points
     bs = None
-    if rng.random() < 0.35:
+    if f is not None and rng.random() < 0.35:
         part = rng.choice(parts)
         bs = pep.declare_function(BlockSmoothConvexFunction, partition=part,
                                   L=[rng.choice([1.0, 2.0, 0.5]) for _ in range(part.d)])
         for x in rng.sample(pts, min(len(pts), rng.randint(1, 2))):
             bs.gradient(x)
         desc["block_smooth"] = True
-    xs = f.stationary_point()
+    xs = f.stationary_point() if f is not None else pep.set_initial_point()
+    if f is None:
+        desc["no_function"] = True
+        for p_ in pts[1:4]:
+            pep.add_constraint((p_ - xs) ** 2 <= 4)      # keeps the metric bounded without any class constraint
     pep.set_initial_condition((pts[0] - xs) ** 2 <= 1)
     pep.set_performance_metric((pts[-1] - xs) ** 2)
     return pep, parts, desc, pts
